@@ -22,12 +22,15 @@ GLOBAL_ASSUMPTIONS = [
 ]
 
 
+OUT = os.environ.get("PYVC_OUT_DIR", VERIF)  # evidence/ and replays/ go here (scratch runs on seeded copies use their own)
+
+
 def evidence_path(prop):
-    return os.path.join(VERIF, "evidence", f"{prop}.json")
+    return os.path.join(OUT, "evidence", f"{prop}.json")
 
 
 def write_crash_evidence(prop, tier, seed, wall, tb):
-    os.makedirs(os.path.join(VERIF, "evidence"), exist_ok=True)
+    os.makedirs(os.path.join(OUT, "evidence"), exist_ok=True)
     ev = {
         "property_id": prop,
         "tier": tier if tier in ("quick", "thorough") else "quick",
@@ -217,7 +220,7 @@ def run_property(prop, tier, seed, args):
     violations = []
     known_hit = []
     replays = (runtime or {}).get("replays", {})
-    rdir = os.path.join(VERIF, "replays", prop)
+    rdir = os.path.join(OUT, "replays", prop)
     os.makedirs(rdir, exist_ok=True)
     for fn_ in os.listdir(rdir):  # replay files are rewritten on every run
         try:
@@ -236,7 +239,7 @@ def run_property(prop, tier, seed, args):
         if match is not None and not rp.get("differs_from_known", False):
             known_hit.append((o, match))
             continue
-        path = os.path.join(VERIF, "replays", prop, o.name.split("/", 1)[1].replace("/", "_").replace(":", "_") + ".json")
+        path = os.path.join(OUT, "replays", prop, o.name.split("/", 1)[1].replace("/", "_").replace(":", "_") + ".json")
         rec = {
             "property": prop,
             "obligation": o.name,
@@ -287,7 +290,7 @@ def run_property(prop, tier, seed, args):
         if f:
             out_lines.append(f"KNOWN-FINDING: property={prop} {f[0].get('what')}")
             continue
-        path = os.path.join(VERIF, "replays", prop, f"runtime_{uid}_{fl.get('label','x')}".replace("/", "_").replace(":", "_").replace("[", "_").replace("]", "_") + ".json")
+        path = os.path.join(OUT, "replays", prop, f"runtime_{uid}_{fl.get('label','x')}".replace("/", "_").replace(":", "_").replace("[", "_").replace("]", "_") + ".json")
         with open(path, "w") as fh:
             json.dump({"property": prop, "unit": uid, "runtime_failure": fl, "rerun": f"./check {prop} --replay {path}"}, fh, indent=1, default=str)
         out_lines.append(f"VIOLATION property={prop} replay={path}")
@@ -370,7 +373,7 @@ def run_property(prop, tier, seed, args):
         "wall_s": round(time.time() - t0, 2),
         "violations": sum(1 for l in out_lines if l.startswith("VIOLATION")),
     }
-    os.makedirs(os.path.join(VERIF, "evidence"), exist_ok=True)
+    os.makedirs(os.path.join(OUT, "evidence"), exist_ok=True)
     with open(evidence_path(prop), "w") as fh:
         json.dump(ev, fh, indent=1, default=str)
     print(f"[{prop}] obligations={len(obs)} discharged={len(discharged)} refuted={len(refuted)} open={len(unknown)} known={n_known} covers={len(covers)} solver_time={solver_time:.1f}s wall={time.time()-t0:.1f}s exit={exit_code}")
